@@ -156,6 +156,19 @@ def cases(tier, seed):
         if quick and k % 4:
             continue
         yield {"kind": "stmts_multigoto", "files": [("stmts.pn", gen_prog.to_source(gen_scope.program_with_main(b)))]}
+    # 12. expressions whose type cannot be inferred, or does not fit, in every statement context (the E5xx diagnostics point at
+    #     whole sub-expressions: casts, literals, operations)
+    exprs = ["cast x", "cast (x + 1u32)", "[cast x, cast x]", "cast x == cast x", "-cast x", "cast x as u8", "cast cast x", "&cast x",
+             "[]", "[[]]", "1", "-1", "1 + 2", "[1, 2]", "[1, 2][0]", "1 == 2", "x as u8 as bool", "|[1, 2]|", "0x10 << 1", "'a' + 1",
+             "\"s\"", "\"s\" \"t\"", "true + 1", "!1", "f(1)", "f(cast x)", "g()", "S { a: 1 }", "S { a: cast x }", "(cast x)", "p", "&p"]
+    contexts = ["\tvar y = %s;\n", "\tvar y;\n\ty = %s;\n", "\tif %s == %s\n\t{\n\t}\n", "\tprint!(%s);\n", "\tvar y: u64 = %s;\n",
+                "\tvar y: bool = %s;\n", "\tvar y: []u8 = %s;\n", "\tf(%s);\n", "\tx = %s;\n", "\tvar y: [2]i8 = [%s, 1];\n",
+                "\tvar y = [%s, %s];\n", "\tvar y = S { a: %s };\n", "\tif %s\n\t\tgoto end;\n\tend:\n", "\tvar y = %s as i64;\n"]
+    pre = ("struct S\n{\n\ta: i32,\n}\n\nfn f(v: i32) -> i32\n{\n\treturn: v\n}\n\nfn g()\n{\n}\n\nfn main()\n{\n\tvar x: u32 = 5;\n"
+           "\tvar p: &u32 = &x;\n")
+    for e in exprs:
+        for c in contexts:
+            yield {"kind": "inference", "files": [("infer.pn", pre + c.replace("%s", e) + "}\n")]}
     # 11. dependency graphs of constants and structures in random declaration order, half of them with a cycle of length 1-5
     for i in range(2000 if quick else 40000):
         g_rng = common.rng_for(seed, PROP, "depgraph", i)
